@@ -87,9 +87,9 @@ pub fn run(prop: &str, tier: &str) -> i32 {
                 run.property = "C05".to_string();
                 run.known = load_known_findings("C05");
             }
-            for (desc, states, _) in c05::c05_families(run.thorough()) {
-                run.family(desc, states.len() as u64);
-                run.explore(&states, c05::eval_c05, |s| s.to_json());
+            for (desc, states, verdicts) in c05::c05_families(run.thorough()) {
+                run.family(format!("{}{}", desc, if verdicts { "" } else { " [totality, finiteness and near-tie decisions only: the C01-C04 verdicts of these states are the C01-C04 checks themselves]" }), states.len() as u64);
+                run.explore(&states, |s| c05::eval_c05_with(s, verdicts), |s| s.to_json());
             }
         }
         "C10" | "C10DBG" => {
@@ -267,6 +267,9 @@ pub fn replay(path: &str) -> i32 {
             return 2;
         }
     };
+    if std::env::var("VERIF_DUMP").is_ok() {
+        dump_state(&st);
+    }
     println!("replay of {} ({}), recorded clause: {}", path, prop, clause);
     println!("{}", st.to_replay());
     let mut n = 0;
@@ -288,5 +291,31 @@ pub fn replay(path: &str) -> i32 {
     } else {
         println!("NOT REPRODUCED: the state passes");
         0
+    }
+}
+
+/// Debugging aid for replays (VERIF_DUMP=1): library vs oracle values of every cell and face of the state.
+fn dump_state(st: &State) {
+    use crate::obs::FaceRec;
+    use crate::tess::*;
+    let oc = ocells(st);
+    let Ok(integ) = build_integrator(st, None) else {
+        println!("DUMP: build panicked");
+        return;
+    };
+    let vc = integ.compute_cell_integrals::<meshless_voronoi::integrals::VolumeCentroidIntegral>();
+    let recs = integ.compute_face_integrals::<FaceRec>();
+    let lf = lib_cell_faces(st, &recs, st.n());
+    for i in 0..st.n() {
+        println!("DUMP cell {}: volume lib {:e} oracle {:e}; centroid lib {} oracle {}", i, vc[i].volume, oc[i].volume, crate::util::fmt_vec(vc[i].centroid), crate::util::fmt_vec(oc[i].centroid));
+        for of in &oc[i].faces {
+            let l = lf[i].by_key.get(&of.key).map(|v| (v[0].area, v[0].centroid));
+            println!("DUMP   face {}: area oracle {:e} lib {:?} n {}", of.key.describe(), of.area, l.map(|x| x.0), crate::util::fmt_vec(of.normal));
+        }
+        for (k, v) in &lf[i].by_key {
+            if !oc[i].faces.iter().any(|f| f.key == *k) {
+                println!("DUMP   face {} only in the library: area {:e}", k.describe(), v[0].area);
+            }
+        }
     }
 }
